@@ -98,45 +98,45 @@ pub enum HavokValue {
 }
 
 impl HavokValue {
-    pub fn as_int(&self) -> HavokInteger {
+    pub fn as_int(&self) -> Option<HavokInteger> {
         match self {
-            Self::Integer(x) => *x,
-            _ => panic!(),
+            Self::Integer(x) => Some(*x),
+            _ => None,
         }
     }
 
-    pub fn as_object(&self) -> Arc<RefCell<HavokObject>> {
+    pub fn as_object(&self) -> Option<Arc<RefCell<HavokObject>>> {
         match self {
-            Self::Object(x) => x.clone(),
-            _ => panic!(),
+            Self::Object(x) => Some(x.clone()),
+            _ => None,
         }
     }
 
-    pub fn as_array(&self) -> &Vec<HavokValue> {
+    pub fn as_array(&self) -> Option<&Vec<HavokValue>> {
         match self {
-            Self::Array(x) => x,
-            _ => panic!(),
+            Self::Array(x) => Some(x),
+            _ => None,
         }
     }
 
-    pub fn as_string(&self) -> &str {
+    pub fn as_string(&self) -> Option<&str> {
         match self {
-            Self::String(x) => x,
-            _ => panic!(),
+            Self::String(x) => Some(x),
+            _ => None,
         }
     }
 
-    pub fn as_vec(&self) -> &Vec<HavokReal> {
+    pub fn as_vec(&self) -> Option<&Vec<HavokReal>> {
         match self {
-            Self::Vec(x) => x,
-            _ => panic!(),
+            Self::Vec(x) => Some(x),
+            _ => None,
         }
     }
 
-    pub fn as_real(&self) -> HavokReal {
+    pub fn as_real(&self) -> Option<HavokReal> {
         match self {
-            Self::Real(x) => *x,
-            _ => panic!(),
+            Self::Real(x) => Some(*x),
+            _ => None,
         }
     }
 }
@@ -150,17 +150,22 @@ impl HavokRootObject {
         Self { object }
     }
 
-    pub fn find_object_by_type(&self, type_name: &'static str) -> Arc<RefCell<HavokObject>> {
+    /// The `variant` of the first named variant of that class; `None` when there is none or the
+    /// root object does not have the shape of a `hkRootLevelContainer`.
+    pub fn find_object_by_type(
+        &self,
+        type_name: &'static str,
+    ) -> Option<Arc<RefCell<HavokObject>>> {
         let root_obj = self.object.borrow();
-        let named_variants = root_obj.get("namedVariants");
+        let named_variants = root_obj.get("namedVariants")?;
 
-        for variant in named_variants.as_array() {
-            let variant_obj = variant.as_object();
-            if variant_obj.borrow().get("className").as_string() == type_name {
-                return variant_obj.borrow().get("variant").as_object();
+        for variant in named_variants.as_array()? {
+            let variant_obj = variant.as_object()?;
+            if variant_obj.borrow().get("className")?.as_string()? == type_name {
+                return variant_obj.borrow().get("variant")?.as_object();
             }
         }
-        unreachable!()
+        None
     }
 }
 
@@ -240,15 +245,16 @@ impl HavokObject {
         self.data.insert(index, value);
     }
 
-    pub fn get(&self, member_name: &str) -> &HavokValue {
+    /// The value of the member of that name; `None` when the type has no such member (or the
+    /// member has no value: an element of a struct array whose column is absent).
+    pub fn get(&self, member_name: &str) -> Option<&HavokValue> {
         let member_index = self
             .object_type
             .members()
             .iter()
-            .position(|&x| &*x.name == member_name)
-            .unwrap();
+            .position(|&x| &*x.name == member_name)?;
 
-        self.data.get(&member_index).unwrap()
+        self.data.get(&member_index)
     }
 
     pub(crate) fn members_mut(&mut self) -> impl Iterator<Item = (&usize, &mut HavokValue)> {
